@@ -77,7 +77,8 @@ def correspond(ctx):
                 nbuilds += 1
         c.count('prog:' + ('fails' if next(iter(allb)).startswith('FAIL') else 'builds'))
         if len(allb) != 1:
-            kinds = {b[:24]: v[:3] for b, v in allb.items()}
+            import hashlib
+            kinds = {hashlib.sha1(b.encode()).hexdigest()[:8] + ':' + b[:16]: v[:3] for b, v in allb.items()}
             c.failures.append(Failure('correspondence',
                                       'the same graph function built to different results: %s' % json.dumps(kinds, default=str),
                                       replay={'prog': p, 'variants': {b[:200]: v[:6] for b, v in allb.items()}},
